@@ -13,6 +13,7 @@ import (
 	_ "verifengine/props/c12"
 	_ "verifengine/props/c13"
 	_ "verifengine/props/c14"
+	_ "verifengine/props/c16"
 	_ "verifengine/props/c19"
 )
 
